@@ -632,7 +632,7 @@ pub open spec fn internal_full(o: &Pager, p: u64, sep: Seq<u8>) -> bool {
 }
 /// internal page `p` was full and has been split around the new separator: see C26.tree.insert_into_parent
 pub open spec fn internal_split_ok(o: &Pager, n: &Pager, p: u64, r2: u64, pos: int, sep: Seq<u8>, right: u64, promote: Seq<u8>) -> bool {
-    internal_wf(pg(o, p)) && 0 <= pos <= pg_count(pg(o, p)) && live(o, p) && !live(o, r2)
+    internal_wf(pg(o, p)) && 0 <= pos <= pg_count(pg(o, p)) && live(o, p) && !live(o, r2) && live(n, r2)
     && internal_wf(pg(n, p)) && internal_wf(pg(n, r2))
     && int_seps(pg(n, p)).push(promote) + int_seps(pg(n, r2)) == int_seps(pg(o, p)).insert(pos, sep)
     && all_children(pg(n, p)) + all_children(pg(n, r2)) == all_children(pg(o, p)).insert(pos + 1, right)
@@ -736,7 +736,7 @@ pub proof fn lemma_leaf_split(o: &Pager, n: &Pager, l: u64, rr: u64, pos: int, k
 /// C26.tree.insert_into_parent (the abstract argument): two well-formed internal pages holding the separators
 /// and children on either side of the promoted separator are a correct internal split
 pub proof fn lemma_internal_split(o: &Pager, n: &Pager, pp: u64, r2: u64, pos: int, sep: Seq<u8>, right: u64, promote: Seq<u8>, mid: int)
-    requires internal_wf(pg(o, pp)), live(o, pp), !live(o, r2), 0 <= pos <= pg_count(pg(o, pp)), sep.len() <= 0x7fff_ffff_ffff_ffff,
+    requires internal_wf(pg(o, pp)), live(o, pp), !live(o, r2), live(n, r2), 0 <= pos <= pg_count(pg(o, pp)), sep.len() <= 0x7fff_ffff_ffff_ffff,
         0 <= mid < pg_count(pg(o, pp)) + 1, internal_wf(pg(n, pp)), internal_wf(pg(n, r2)),
         int_seps(pg(n, pp)) == int_seps(pg(o, pp)).insert(pos, sep).take(mid),
         int_seps(pg(n, r2)) == int_seps(pg(o, pp)).insert(pos, sep).skip(mid + 1),
@@ -805,6 +805,20 @@ pub proof fn lemma_path_for_key_push(p: &Pager, path: Seq<PathEntry>, key: Seq<u
     reveal(path_for_key);
     assert forall|k: int| 0 <= k < path.push(e).len() implies is_lb(int_seps(pg(p, (#[trigger] path.push(e)[k]).page.0)), key, path.push(e)[k].child_pos as int) by {
         if k < path.len() { assert(path.push(e)[k] == path[k]); }
+    }
+}
+/// C26.tree.insert_into_parent.propagated — what BTree::insert_into_parent did, level by level: a new root above the
+/// top of the recorded descent, or the separator and the new page added to a parent with room, or an internal split
+/// (internal_split_ok towards an intermediate store) followed by the same one level up with the promoted separator
+pub open spec fn propagated_ok(o: &Pager, n: &Pager, path: Seq<PathEntry>, root_o: u64, root_n: u64, left: u64, sep: Seq<u8>, right: u64) -> bool
+    decreases path.len()
+{
+    if path.len() == 0 { new_root_ok(o, n, root_n, left, sep, right) }
+    else {
+        (parent_insert_ok(o, n, path.last().page.0, path.last().child_pos as int, sep, right) && root_n == root_o)
+        || exists|m: Pager, r2: u64, promote: Seq<u8>| #[trigger] internal_split_ok(o, &m, path.last().page.0, r2, path.last().child_pos as int, sep, right, promote)
+              && live_kept(o, &m) && frame_path(&m, n, path.drop_last()) && live_kept(&m, n) && promote.len() <= 0x7fff_ffff_ffff_ffff
+              && propagated_ok(&m, n, path.drop_last(), root_o, root_n, path.last().page.0, promote, r2)
     }
 }
 /// C26.tree.insert.split_parent_room — what an insert that split leaf `l` (new right leaf `r`) did when the parent, the
@@ -883,6 +897,7 @@ impl BTree {
 //@|         || internal_full(old(pager), old(path)@.last().page.0, sep_key@),
 //@|     // C18.btree.frame (whatever the outcome): only pages of the recorded descent, or pages that were free, were written
 //@|     frame_path(old(pager), final(pager), old(path)@), live_kept(old(pager), final(pager)),
+//@|     r is Ok ==> propagated_ok(old(pager), final(pager), old(path)@, old(self).root.0, final(self).root.0, left_id.0, sep_key@, right_id.0),
 //@| decreases old(path)@.len(),
 //@prewrite "keys.push(k.to_vec());" => "keys.push(v_slice_to_vec(k));"
 //@preregex "(\w+)\[(\w+)\]\.clone\(\)" => "v_bytes_clone(&\1[\2])"
@@ -890,7 +905,7 @@ impl BTree {
 //@prewrite "keys[mid + 1..].to_vec()" => "v_keys_to_vec(&keys, mid + 1, keys.len())"
 //@prewrite "children[..mid + 1].to_vec()" => "v_children_to_vec(&children, 0, mid + 1)"
 //@prewrite "children[mid + 1..].to_vec()" => "v_children_to_vec(&children, mid + 1, children.len())"
-//@preregex "(?m)^(\s*)self\.insert_into_parent\(pager, path, ([^()]*)\)\s*$" => "\1let ghost pager1 = *pager;\n\1let rec_r = self.insert_into_parent(pager, path, \2);\n\1proof { lemma_frame_compose(old(pager), &pager1, pager, old(path)@); }\n\1rec_r"
+//@preregex "(?m)^(\s*)self\.insert_into_parent\(pager, path, ([^()]*)\)\s*$" => "\1let ghost pager1 = *pager; let ghost promote0 = promote@; let ghost path1 = path@;\n\1let rec_r = self.insert_into_parent(pager, path, \2);\n\1proof { lemma_frame_compose(old(pager), &pager1, pager, old(path)@);\n\1  if rec_r is Ok { assert(path1 == old(path)@.drop_last()); assert(internal_split_ok(old(pager), &pager1, parent_id.0, right_page_id.0, child_pos as int, sep_key@, right_id.0, promote0));\n\1    assert(propagated_ok(&pager1, pager, old(path)@.drop_last(), old(self).root.0, self.root.0, parent_id.0, promote0, right_page_id.0)); } }\n\1rec_r"
 //@preregex "(?s)(\w+)\s*\.into_iter\(\)\s*\.zip\((\w+)\.iter\(\)\.skip\(1\)\.copied\(\)\)\s*\.collect\(\)" => "v_zip_cells(\1, &\2)"
 //@proof before 1 "let parent_id = parent.page;"
 //@| let m0 = old(path)@.len() - 1;
@@ -1006,8 +1021,8 @@ impl BTree {
 //@|            (final(self).root == old(self).root && exists|l: u64, i: int, h: nat| #[trigger] inserted_at(old(pager), final(pager), l, i, key@, payload) && #[trigger] reaches(old(pager), old(self).root.0, key@, l, h))
 //@|            // leaf split, the parent had room
 //@|         || (final(self).root == old(self).root && exists|path: Seq<PathEntry>, l: u64, rr: u64, pos: int| #[trigger] split_insert_ok(old(pager), final(pager), path, old(self).root.0, l, rr, pos, key@, payload))
-//@|            // leaf split and the parent was full as well (internal split, in-body obligations), or the root was a full leaf (new root)
-//@|         || (exists|p: u64, sp: Seq<u8>| #[trigger] internal_full(old(pager), p, sp))
+//@|            // leaf split, however far it propagated (parent with room, internal splits, new root)
+//@|         || (exists|m: Pager, path: Seq<PathEntry>, l: u64, rr: u64, pos: int, sep: Seq<u8>| #[trigger] any_split_ok(old(pager), &m, final(pager), path, old(self).root.0, final(self).root.0, l, rr, pos, key@, payload, sep))
 //@|            // the root was a full leaf: first split of the tree
 //@|         || (exists|rr: u64, pos: int| #[trigger] root_split_ok(old(pager), final(pager), old(self).root.0, final(self).root.0, rr, pos, key@, payload)),
 //@|     r is Err ==> (exists|l: u64| #[trigger] leaf_full(old(pager), l, key@)) || at_most_one_changed(old(pager), final(pager)),
@@ -1090,8 +1105,10 @@ impl BTree {
 //@|         assert(pg(o, path@[k].page.0)[4] == 1 && pg(o, l)[4] == 0);
 //@|     }
 //@|     lemma_path_frame(o, pager, path@);
+//@|     lemma_path_for_key_frame(o, pager, path@, key@);
 //@|     if path@.len() > 0 { lemma_path_ok_at(o, path@, path@.len() - 1); }
 //@|     assert(path_leads_to(pager, path@, self.root.0, l));
+//@|     assert(live(pager, l) && live(pager, rr));
 //@| }
 //@proof before 2 "=return Ok(());"
 //@| let o = old(pager); let l = cur.0; let rr = right_id.0;
@@ -1100,9 +1117,10 @@ impl BTree {
 //@|     assert(new_root_ok(&mid_store, pager, self.root.0, l, sep0, rr));
 //@|     lemma_root_split(o, &mid_store, pager, l, self.root.0, rr, pos as int, key@, payload, sep0);
 //@|     assert(root_split_ok(o, pager, old(self).root.0, self.root.0, rr, pos as int, key@, payload));
+//@| }
+//@| assert(any_split_ok(o, &mid_store, pager, path0, old(self).root.0, self.root.0, l, rr, pos as int, key@, payload, sep0));
+//@| if path0.len() == 0 {
 //@| } else if internal_full(&mid_store, path0.last().page.0, sep0) {
-//@|     assert(pg(&mid_store, path0.last().page.0) == pg(o, path0.last().page.0)) by { assert(path0[path0.len() - 1] == path0.last()); lemma_path_ok_at(o, path0, path0.len() - 1); assert(pg(o, path0.last().page.0)[4] == 1 && pg(o, l)[4] == 0); }
-//@|     assert(internal_full(o, path0.last().page.0, sep0));
 //@| } else {
 //@|     assert(parent_insert_ok(&mid_store, pager, path0.last().page.0, path0.last().child_pos as int, sep0, rr));
 //@|     assert(self.root == old(self).root);
@@ -1241,6 +1259,176 @@ pub proof fn lemma_descent_after_split(o: &Pager, n: &Pager, path: Seq<PathEntry
     }
     lemma_reaches_along_path(n, path, key, big_l, 0);
 }
+/// the lower bound of a key among a prefix / a suffix of the separators
+pub proof fn lemma_lb_take(ks: Seq<Seq<u8>>, key: Seq<u8>, c: int, m: int)
+    requires is_lb(ks, key, c), 0 <= c <= m <= ks.len(),
+    ensures is_lb(ks.take(m), key, c),
+{
+    assert forall|j: int| 0 <= j < c implies lex_lt(#[trigger] ks.take(m)[j], key) by { assert(ks.take(m)[j] == ks[j]); }
+    assert forall|j: int| c <= j < ks.take(m).len() implies lex_le(key, #[trigger] ks.take(m)[j]) by { assert(ks.take(m)[j] == ks[j]); }
+}
+pub proof fn lemma_lb_skip(ks: Seq<Seq<u8>>, key: Seq<u8>, c: int, m: int)
+    requires is_lb(ks, key, c), 0 <= m <= c <= ks.len(),
+    ensures is_lb(ks.skip(m), key, c - m),
+{
+    assert forall|j: int| 0 <= j < c - m implies lex_lt(#[trigger] ks.skip(m)[j], key) by { assert(ks.skip(m)[j] == ks[m + j]); }
+    assert forall|j: int| c - m <= j < ks.skip(m).len() implies lex_le(key, #[trigger] ks.skip(m)[j]) by { assert(ks.skip(m)[j] == ks[m + j]); }
+}
+pub proof fn lemma_path_for_key_frame(o: &Pager, n: &Pager, path: Seq<PathEntry>, key: Seq<u8>)
+    requires path_for_key(o, path, key), forall|k: int| 0 <= k < path.len() ==> pg(n, (#[trigger] path[k]).page.0) == pg(o, path[k].page.0),
+    ensures path_for_key(n, path, key),
+{ reveal(path_for_key); }
+pub proof fn lemma_path_for_key_drop(p: &Pager, path: Seq<PathEntry>, key: Seq<u8>)
+    requires path_for_key(p, path, key), path.len() > 0,
+    ensures path_for_key(p, path.drop_last(), key), is_lb(int_seps(pg(p, path.last().page.0)), key, path.last().child_pos as int),
+{
+    reveal(path_for_key);
+    assert(path[path.len() - 1] == path.last());
+    assert forall|k: int| 0 <= k < path.drop_last().len() implies is_lb(int_seps(pg(p, (#[trigger] path.drop_last()[k]).page.0)), key, path.drop_last()[k].child_pos as int) by { assert(path.drop_last()[k] == path[k]); }
+}
+/// the descent from the k-th recorded page follows the record and continues below its last page as that page does
+pub proof fn lemma_reaches_up_path(n: &Pager, path: Seq<PathEntry>, key: Seq<u8>, target: u64, h0: nat, k: int)
+    requires 0 <= k < path.len(),
+        forall|j: int| k <= j < path.len() - 1 ==> pg_kind_ok(pg(n, (#[trigger] path[j]).page.0)) && pg(n, path[j].page.0)[4] == 1
+            && is_lb(int_seps(pg(n, path[j].page.0)), key, path[j].child_pos as int) && int_child(pg(n, path[j].page.0), path[j].child_pos as int) == path[j + 1].page.0,
+        reaches(n, path.last().page.0, key, target, h0),
+    ensures reaches(n, path[k].page.0, key, target, (h0 + path.len() - 1 - k) as nat),
+    decreases path.len() - k
+{
+    if k == path.len() - 1 { assert(path[k] == path.last()); } else {
+        lemma_reaches_up_path(n, path, key, target, h0, k + 1);
+        lemma_reaches_step(n, path[k].page.0, key, path[k].child_pos as int, target, (h0 + path.len() - 2 - k) as nat);
+    }
+}
+/// C26.tree.descent_redirect — after insert_into_parent has linked `right` (separator `sep`) next to `left`, however
+/// far the split propagated: the descent for ANY key that used to go down the recorded path into `left` now reaches
+/// whatever the descent from `left` reaches if the key is not above the separator, and whatever the descent from
+/// `right` reaches otherwise.  (Induction over the levels of propagated_ok.)
+#[verifier::rlimit(200)]
+pub proof fn lemma_redirect(o: &Pager, n: &Pager, path: Seq<PathEntry>, root_o: u64, root_n: u64, left: u64, sep: Seq<u8>, right: u64, key: Seq<u8>, target: u64, h: nat)
+    requires propagated_ok(o, n, path, root_o, root_n, left, sep, right),
+        path_ok(o, path), path_for_key(o, path, key), path_leads_to(o, path, root_o, left),
+        reaches(n, if lex_lt(sep, key) { right } else { left }, key, target, h),
+    ensures exists|hh: nat| reaches(n, root_n, key, target, hh),
+    decreases path.len()
+{
+    let go_right = lex_lt(sep, key);
+    let x = if go_right { right } else { left };
+    if path.len() == 0 {
+        let cpn: int = if go_right { 1 } else { 0 };
+        assert(is_lb(int_seps(pg(n, root_n)), key, cpn));
+        assert(int_child(pg(n, root_n), cpn) == x) by { assert(all_children(pg(n, root_n))[cpn] == int_child(pg(n, root_n), cpn)); }
+        lemma_reaches_step(n, root_n, key, cpn, target, h);
+    } else {
+        let pe = path.last(); let p = pe.page.0; let cp = pe.child_pos as int;
+        let m1 = path.len() - 1;
+        assert(path[m1] == pe);
+        lemma_path_ok_at(o, path, m1);
+        lemma_path_for_key_drop(o, path, key);
+        let ks0 = int_seps(pg(o, p));
+        let ks1 = ks0.insert(cp, sep);
+        let cs1 = all_children(pg(o, p)).insert(cp + 1, right);
+        let cpn = if go_right { cp + 1 } else { cp };
+        lemma_lb_insert(ks0, key, cp, sep);
+        assert(cs1[cpn] == x) by { assert(all_children(pg(o, p))[cp] == int_child(pg(o, p), cp)); }
+        if parent_insert_ok(o, n, p, cp, sep, right) && root_n == root_o {
+            assert(int_child(pg(n, p), cpn) == x) by { assert(all_children(pg(n, p))[cpn] == int_child(pg(n, p), cpn)); }
+            lemma_reaches_step(n, p, key, cpn, target, h);
+            assert forall|j: int| 0 <= j < path.len() - 1 implies pg_kind_ok(pg(n, (#[trigger] path[j]).page.0)) && pg(n, path[j].page.0)[4] == 1
+                    && is_lb(int_seps(pg(n, path[j].page.0)), key, path[j].child_pos as int) && int_child(pg(n, path[j].page.0), path[j].child_pos as int) == path[j + 1].page.0 by {
+                lemma_path_ok_at(o, path, j);
+                assert(pg(n, path[j].page.0) == pg(o, path[j].page.0));
+                assert(is_lb(int_seps(pg(o, path[j].page.0)), key, path[j].child_pos as int)) by { reveal(path_for_key); }
+            }
+            lemma_reaches_up_path(n, path, key, target, h + 1, 0);
+            assert(path[0].page.0 == root_n);
+        } else {
+            let (m, r2, promote) = choose|m: Pager, r2: u64, promote: Seq<u8>| #[trigger] internal_split_ok(o, &m, p, r2, cp, sep, right, promote)
+                  && live_kept(o, &m) && frame_path(&m, n, path.drop_last()) && live_kept(&m, n) && promote.len() <= 0x7fff_ffff_ffff_ffff
+                  && propagated_ok(&m, n, path.drop_last(), root_o, root_n, p, promote, r2);
+            let d = path.drop_last();
+            let sp = int_seps(pg(&m, p)); let sr = int_seps(pg(&m, r2));
+            let midk = sp.len() as int;
+            assert(sp.push(promote) + sr == ks1);
+            assert(sp =~= ks1.take(midk)) by { assert forall|j: int| 0 <= j < midk implies sp[j] == ks1.take(midk)[j] by { assert((sp.push(promote) + sr)[j] == sp[j]); } }
+            assert(ks1[midk] == promote) by { assert((sp.push(promote) + sr)[midk] == promote); }
+            assert(sr =~= ks1.skip(midk + 1)) by { assert forall|j: int| 0 <= j < sr.len() implies sr[j] == ks1.skip(midk + 1)[j] by { assert((sp.push(promote) + sr)[midk + 1 + j] == sr[j]); } }
+            let cp_ = all_children(pg(&m, p)); let cr_ = all_children(pg(&m, r2));
+            assert(cp_ + cr_ == cs1);
+            assert(cp_.len() == midk + 1);
+            assert forall|j: int| 0 <= j <= midk implies cp_[j] == cs1[j] by { assert((cp_ + cr_)[j] == cp_[j]); }
+            assert forall|j: int| 0 <= j < cr_.len() implies cr_[j] == cs1[midk + 1 + j] by { assert((cp_ + cr_)[midk + 1 + j] == cr_[j]); }
+            // p and r2 are the same pages in n as in m: they are allocated in m and not on the rest of the record
+            assert(pg(n, p) == pg(&m, p)) by {
+                if pg(n, p) != pg(&m, p) { lemma_frame_elim(&m, n, d, p); let k = choose|k: int| 0 <= k < d.len() && d[k].page.0 == p; assert(d[k] == path[k]); }
+            }
+            assert(pg(n, r2) == pg(&m, r2)) by {
+                if pg(n, r2) != pg(&m, r2) { lemma_frame_elim(&m, n, d, r2); let k = choose|k: int| 0 <= k < d.len() && d[k].page.0 == r2; assert(d[k] == path[k]); lemma_path_ok_at(o, path, k); }
+            }
+            // one more step of the descent, in n, from the half that now holds the key's position
+            let y = if lex_lt(promote, key) { r2 } else { p };
+            if cpn <= midk {
+                assert(lex_le(key, ks1[midk]));
+                lemma_lb_take(ks1, key, cpn, midk);
+                assert(int_child(pg(n, p), cpn) == x) by { assert(all_children(pg(n, p))[cpn] == int_child(pg(n, p), cpn)); }
+                lemma_reaches_step(n, p, key, cpn, target, h);
+            } else {
+                assert(lex_lt(ks1[midk], key));
+                lemma_lb_skip(ks1, key, cpn, midk + 1);
+                assert(int_child(pg(n, r2), cpn - midk - 1) == x) by { assert(all_children(pg(n, r2))[cpn - midk - 1] == int_child(pg(n, r2), cpn - midk - 1)); }
+                lemma_reaches_step(n, r2, key, cpn - midk - 1, target, h);
+            }
+            assert(reaches(n, y, key, target, h + 1));
+            // the rest of the record is intact in m and leads to p
+            lemma_path_ok_drop(o, path);
+            assert forall|k: int| 0 <= k < d.len() implies pg(&m, (#[trigger] d[k]).page.0) == pg(o, d[k].page.0) && live(&m, d[k].page.0) by {
+                assert(d[k] == path[k]); lemma_path_ok_at(o, path, k);
+            }
+            lemma_path_frame(o, &m, d);
+            lemma_path_for_key_frame(o, &m, d, key);
+            assert(path_leads_to(&m, d, root_o, p)) by {
+                if d.len() > 0 { assert(d[0] == path[0]); assert(d.last() == path[m1 - 1]); lemma_path_ok_at(o, path, m1 - 1); }
+            }
+            lemma_redirect(&m, n, d, root_o, root_n, p, promote, r2, key, target, h + 1);
+        }
+    }
+}
+/// C26.tree.insert.split_any — what an insert that split a leaf did, however far the split propagated: the leaf split on
+/// an intermediate store `m` (leaf_split_ok), then insert_into_parent level by level (propagated_ok), along the recorded
+/// descent for the key
+pub open spec fn any_split_ok(o: &Pager, m: &Pager, n: &Pager, path: Seq<PathEntry>, root_o: u64, root_n: u64, l: u64, r: u64, pos: int, key: Seq<u8>, payload: u64, sep: Seq<u8>) -> bool {
+    leaf_split_ok(o, m, l, r, pos, key, payload, sep) && keys_sorted(leaf_cells(pg(o, l)))
+    && propagated_ok(m, n, path, root_o, root_n, l, sep, r)
+    && path_ok(m, path) && path_for_key(m, path, key) && path_leads_to(m, path, root_o, l)
+    && frame_path(m, n, path) && live_kept(m, n) && live(m, l) && live(m, r)
+}
+/// C26.tree.lookup_after_any_split — the property's second sentence for EVERY insert that split a leaf (parent with room,
+/// internal splits on any number of levels, new root): on the store after the insert the cursor a lookup of the same key
+/// starts from stands on the entry just inserted.  Hypotheses: the postcondition of BTree::insert (any_split_ok) and of
+/// BTree::cursor_lower_bound on the new store; left half not empty.
+pub proof fn lemma_lookup_after_any_split(o: &Pager, m: &Pager, n: &Pager, path: Seq<PathEntry>, root_o: u64, root_n: u64, l: u64, r: u64, pos: int, key: Seq<u8>, payload: u64, sep: Seq<u8>,
+                                          c_leaf: u64, c_slot: int, l0: u64, h0: nat)
+    requires any_split_ok(o, m, n, path, root_o, root_n, l, r, pos, key, payload, sep), pg_count(pg(m, l)) > 0,
+        reaches(n, root_n, key, l0, h0), leaf_wf(pg(n, l0)),
+        lb_pos(leaf_keys(pg(n, l0)), key) < pg_count(pg(n, l0)) ==> c_leaf == l0 && c_slot == lb_pos(leaf_keys(pg(n, l0)), key),
+        lb_pos(leaf_keys(pg(n, l0)), key) >= pg_count(pg(n, l0)) && pg_count(pg(n, l0)) > 0 && sib(pg(n, l0)) != 0 && pg_count(pg(n, sib(pg(n, l0)))) > 0
+            ==> c_leaf == sib(pg(n, l0)) && c_slot == 0,
+    ensures (c_leaf == l || c_leaf == r), 0 <= c_slot < pg_count(pg(n, c_leaf)), leaf_cells(pg(n, c_leaf))[c_slot] == (key, payload),
+{
+    // the two leaves are the same pages in n as in m: allocated in m, and not on the record (its pages are internal)
+    assert(pg(n, l) == pg(m, l)) by {
+        if pg(n, l) != pg(m, l) { lemma_frame_elim(m, n, path, l); let k = choose|k: int| 0 <= k < path.len() && path[k].page.0 == l; lemma_path_ok_at(m, path, k); }
+    }
+    assert(pg(n, r) == pg(m, r)) by {
+        if pg(n, r) != pg(m, r) { lemma_frame_elim(m, n, path, r); let k = choose|k: int| 0 <= k < path.len() && path[k].page.0 == r; lemma_path_ok_at(m, path, k); }
+    }
+    let x = if lex_lt(sep, key) { r } else { l };
+    assert(reaches(n, x, key, x, 0nat));
+    lemma_redirect(m, n, path, root_o, root_n, l, sep, r, key, x, 0nat);
+    let hh = choose|hh: nat| reaches(n, root_n, key, x, hh);
+    lemma_reaches_unique(n, root_n, key, x, hh, l0, h0);
+    lemma_cursor_after_leaf_split(n, l, r, leaf_cells(pg(o, l)), pos, key, payload, c_leaf, c_slot, l0);
+}
 /// C26.tree.insert.root_split — what an insert did that split the root while it was a leaf: the two halves as in a
 /// leaf split, and a new root (a page that was free) whose only separator is the first key of the right half
 pub open spec fn root_split_ok(o: &Pager, n: &Pager, l: u64, new_root: u64, r: u64, pos: int, key: Seq<u8>, payload: u64) -> bool {
@@ -1361,6 +1549,8 @@ pub proof fn lemma_lookup_after_insert(o: &Pager, n: &Pager, root: u64, key: Seq
 
 //@canary|pub proof fn canary_split_insert_ok(o: &Pager, n: &Pager, path: Seq<PathEntry>, root: u64, l: u64, r: u64, k: Seq<u8>) requires split_insert_ok(o, n, path, root, l, r, 1, k, 7), r != 0, pg_count(pg(n, l)) == 2, pg_count(pg(o, l)) == 3, path.len() == 2 ensures false {}
 //@canary|pub proof fn canary_lookup_after_split_concl(o: &Pager, n: &Pager, path: Seq<PathEntry>, root: u64, l: u64, r: u64, k: Seq<u8>, l0: u64, h0: nat) requires split_insert_ok(o, n, path, root, l, r, 2, k, 7), r != 0, pg_count(pg(n, l)) == 2, reaches(n, root, k, l0, h0), leaf_wf(pg(n, l0)) ensures l0 == r {}
+//@canary|pub proof fn canary_any_split_propagated(o: &Pager, m: &Pager, n: &Pager, path: Seq<PathEntry>, ro: u64, rn: u64, l: u64, r: u64, k: Seq<u8>, s: Seq<u8>) requires any_split_ok(o, m, n, path, ro, rn, l, r, 1, k, 7, s), path.len() == 2, !parent_insert_ok(m, n, path.last().page.0, path.last().child_pos as int, s, r), pg_count(pg(m, l)) == 2 ensures false { reveal(path_ok); }
+//@canary|pub proof fn canary_redirect_concl(o: &Pager, n: &Pager, path: Seq<PathEntry>, ro: u64, rn: u64, l: u64, s: Seq<u8>, r: u64, k: Seq<u8>, t: u64) requires propagated_ok(o, n, path, ro, rn, l, s, r), path_ok(o, path), path_for_key(o, path, k), path_leads_to(o, path, ro, l), path.len() == 1, reaches(n, l, k, t, 0) ensures exists|hh: nat| reaches(n, rn, k, t, hh) {}
 //@canary|pub proof fn canary_reaches(p: &Pager, root: u64, k: Seq<u8>, l: u64) requires tree_pages_ok(p), reaches(p, root, k, l, 2), root != l, pg_kind_ok(pg(p, root)), pg(p, root)[4] == 1, pg_count(pg(p, root)) == 3 ensures false {}
 //@canary|pub proof fn canary_lookup_hyp(o: &Pager, n: &Pager, root: u64, k: Seq<u8>, l: u64) requires tree_pages_ok(o), inserted_at(o, n, l, 1, k, 5), reaches(o, root, k, l, 1), root != l, pg_count(pg(o, l)) == 2 ensures false {}
 //@canary|pub proof fn canary_ranked(p: &Pager, rank: spec_fn(u64) -> nat, a: u64) requires tree_pages_ok(p), ranked(p, rank), pg_kind_ok(pg(p, a)), pg(p, a)[4] == 1, pg_count(pg(p, a)) == 2, int_child(pg(p, a), 1) != int_child(pg(p, a), 2) ensures false {}
